@@ -11,7 +11,7 @@
      Receipts(), Get(l) for the lookup links and the blocks of Blocks() in order.
    The model has to predict all of it. *)
 From Ucanto Require Import Base Varint Ipld Cbor Formats Blockstore MessageFormat Cid Car BaseEnc DagJson.
-From Ucanto Require Import Check_CBOR Check_C12 MessageBytes.
+From Ucanto Require Import Check_CBOR Check_C12 MessageBytes ReceiptFormat ReceiptBytes.
 Open Scope N_scope.
 
 Inductive bmut :=
@@ -39,9 +39,14 @@ Definition apply_bmut (base : bstr) (m : bmut) : bstr :=
   end.
 
 (* what was observed: an error, or the accessors of the message ([] = "not found" for a Get) *)
+(* what receipt.NewReceipt made of the root a Get returned: an error, or the accessors *)
+Inductive robs :=
+| RRErr
+| RROk (ran : bstr) (ok : bool) (sg : bstr) (iss : option bstr) (fork : list bstr) (join : option bstr) (prf : list bstr).
+
 Inductive bobs :=
 | BOErr
-| BOMsg (root : bstr) (exec rcpts gets : list bstr) (blocks : list eitem)
+| BOMsg (root : bstr) (exec rcpts gets : list bstr) (reads : list robs) (blocks : list eitem)
 | BONone.                             (* this side was not exercised *)
 
 Record bcase := BC {
@@ -68,20 +73,52 @@ Fixpoint blocks_eq (a : list block) (b : list eitem) : bool :=
 Definition get_of (m : amsg) (l : bstr) : bstr :=
   match get_bytes m l with Ret (Some r) => r | _ => [] end.
 
+Definition oeq (a b : option bstr) : bool :=
+  match a, b with Some x, Some y => beq x y | None, None => true | _, _ => false end.
+
+(* the model's reading against the observed one; a case outside the modelled domain (RUnm) is skipped;
+   the issuer is compared when the implementation's DID parser accepted it *)
+Definition read_agrees (r : rres) (o : robs) : bool :=
+  match r, o with
+  | RUnm, _ => true
+  | ROk rc, RROk ran okk sg iss fork join prf =>
+    let oc := r_ocm rc in
+    beq (o_ran oc) ran && Bool.eqb (o_ok oc) okk && beq (r_sig rc) sg
+    && (match iss with Some _ => oeq (o_iss oc) iss | None => true end)
+    && list_eqb beq (o_fork oc) fork && oeq (o_join oc) join && list_eqb beq (o_prf oc) prf
+  | ROk _, RRErr => false
+  | _, RRErr => true
+  | _, RROk _ _ _ _ _ _ _ => false
+  end.
+
+Fixpoint reads_agree (rs : list rres) (os : list robs) : bool :=
+  match rs, os with
+  | [], [] => true
+  | r :: rs', o :: os' => read_agrees r o && reads_agree rs' os'
+  | _, _ => false
+  end.
+
+(* the receipts behind the lookups that Get found, in order *)
+Definition model_reads (mh : N -> N -> bstr -> option bstr) (d : decoded) (lookups : list bstr) : list rres :=
+  filter_map (fun l => match get_bytes (d_msg d) l with
+                       | Ret (Some rl) => Some (read_receipt mh (d_store d) rl)
+                       | _ => None end) lookups.
+
 (* 0 agree; 1 the implementation answered and the model says error; 2 the converse;
-   3 root link; 4 Invocations; 5 Receipts; 6 Get; 7 Blocks *)
-Definition cmp_obs (lookups : list bstr) (r : option decoded) (o : bobs) : N :=
+   3 root link; 4 Invocations; 5 Receipts; 6 Get; 7 Blocks; 8 a receipt named by the report reads differently *)
+Definition cmp_obs (mh : N -> N -> bstr -> option bstr) (lookups : list bstr) (r : option decoded) (o : bobs) : N :=
   match o, r with
   | BONone, _ => 0
   | BOErr, None => 0
   | BOErr, Some _ => 2
-  | BOMsg _ _ _ _ _, None => 1
-  | BOMsg root ex rc gets blks, Some d =>
+  | BOMsg _ _ _ _ _ _, None => 1
+  | BOMsg root ex rc gets reads blks, Some d =>
     if negb (beq (d_root d) root) then 3
     else if negb (list_eqb beq (invocations_bytes (d_msg d)) ex) then 4
     else if negb (list_eqb beq (match receipts_bytes (d_msg d) with Ret l => l | _ => [] end) rc) then 5
     else if negb (list_eqb beq (map (get_of (d_msg d)) lookups) gets) then 6
     else if negb (blocks_eq (tbl_blocks (d_store d)) blks) then 7
+    else if negb (reads_agree (model_reads mh d lookups) reads) then 8
     else 0
   end.
 
@@ -111,7 +148,7 @@ Definition run_bcase (bases : list bstr) (c : bcase) : N * N :=
   let r := decode_message_r mh orc body in
   let d := match r with inl d => Some d | inr _ => None end in
   let resp := match client_execute_bytes mh orc (bc_status c) body with BResponse d' => Some d' | BError => None end in
-  (100 * cmp_handle d (bc_handle c) + 10 * cmp_obs (bc_lookups c) d (bc_req c) + cmp_obs (bc_lookups c) resp (bc_resp c),
+  (100 * cmp_handle d (bc_handle c) + 10 * cmp_obs mh (bc_lookups c) d (bc_req c) + cmp_obs mh (bc_lookups c) resp (bc_resp c),
    class_of (bc_status c) r).
 
 Definition run_all (bases : list bstr) (cases : list bcase) : list (N * N) := map (run_bcase bases) cases.
@@ -126,3 +163,19 @@ Fixpoint bad_of (rs : list (N * N)) (i : N) : list (N * N) :=
 (* how many cases fall in each class 0..7 *)
 Definition hist_of (rs : list (N * N)) : list N :=
   map (fun k => N.of_nat (length (filter (fun r => snd r =? k) rs))) [0; 1; 2; 3; 4; 5; 6; 7].
+
+(* how the receipts named by the reports read in the model (response side):
+   [ok; missing; bad; integrity; no-result; unmodelled] *)
+Definition rclass (r : rres) : N :=
+  match r with ROk _ => 0 | RMissing => 1 | RBad => 2 | RIntegrity => 3 | RNoResult => 4 | RUnm => 5 end.
+Definition reads_of_bcase (bases : list bstr) (c : bcase) : list N :=
+  let body := apply_bmut (nth (N.to_nat (bc_base c)) bases []) (bc_mut c) in
+  let orc := fun _ : bstr => match bc_orc c with OOk r v _ => Some (r, v) | _ => None end in
+  let mh := tbl_lookup body (bc_tbl c) in
+  match decode_message_r mh orc body with
+  | inl d => map rclass (model_reads mh d (bc_lookups c))
+  | inr _ => []
+  end.
+Definition rhist_of (bases : list bstr) (cases : list bcase) : list N :=
+  let all := flat_map (reads_of_bcase bases) cases in
+  map (fun k => N.of_nat (length (filter (fun r => r =? k) all))) [0; 1; 2; 3; 4; 5].
